@@ -588,7 +588,7 @@ def run_job(job, conn, progfile):
         seen = set()
         nshrunk = 0
         for (part, sel, form, short, start, skip) in cases:
-            if time.time() > DEADLINE or ntimeouts.get(skip, 0) >= (2 if QUICK else 3):
+            if time.time() > DEADLINE or ntimeouts.get(skip, 0) >= ((2 if QUICK else 3) if skip else (6 if QUICK else 20)):
                 out['skipped'] += 1          # out of time, or this reader configuration has hung often enough
                 continue
             sel = [it for it in sel if ora.resolve(it) is not None]
